@@ -56,6 +56,32 @@ let () = iter_lines (fun line ->
     (match Gen_Grow.coq_GrowCapacity (gor = "1") (z_of_string cap) (z_of_string mn) (z_of_string cause) (lin = "1") with
      | GenPrelude.Ok r -> print_endline (string_of_z r)
      | GenPrelude.Stuck -> print_endline "Stuck" | GenPrelude.Fuel -> print_endline "Fuel" | GenPrelude.Exn -> print_endline "Exn")
+  | ["gd"; fn; ns; caps; idx; cnts] ->
+    (* the GENERATED guards (Gen_Guards*.v) decide accept / abort / exception; Array::Insert = prefix, then (after the
+       growth the prefix asks for) the guard of InsertNogrow *)
+    let zn = z_of_string ns and zc = z_of_string caps and zi = z_of_string idx and zk = z_of_string cnts in
+    let word = function GenPrelude.Ok _ -> "ok" | GenPrelude.Stuck -> "abort" | GenPrelude.Exn -> "exception" | GenPrelude.Fuel -> "fuel" in
+    let after_insert_nogrow newcap g =
+      match Gen_GuardsShifter.coq_InsertNogrow_guard zn newcap zi zk with
+      | GenPrelude.Ok _ -> "ok g=" ^ g | o -> word o in
+    print_endline (match fn with
+      | "remove" -> (match Gen_GuardsShifter.coq_Remove_guard zn zi zk with GenPrelude.Ok _ -> "ok g=0" | o -> word o)
+      | "insnogrow" -> after_insert_nogrow zc "0"
+      | "insert" ->
+        (match Gen_GuardsArray.coq_Insert_prefix zn zc zi zk with
+         | GenPrelude.Ok (newCount, grow) ->
+           if string_of_z grow = "1" then after_insert_nogrow newCount "1" else after_insert_nogrow zc "0"
+         | o -> word o)
+      | "rb" -> (match Gen_GuardsArray.coq_RemoveBack_guard zn zk with GenPrelude.Ok _ -> "ok g=0" | o -> word o)
+      | "abn" -> (match Gen_GuardsArray.coq_AddBackNogrowCrt_guard zn zc with GenPrelude.Ok _ -> "ok g=0" | o -> word o)
+      | "idx" -> (match Gen_GuardsArray.index_guard zn zi with GenPrelude.Ok _ -> "ok g=0" | o -> word o)
+      | "seginsert" ->
+        (match Gen_GuardsSeg.coq_SegInsert_guard zn zi zk with
+         | GenPrelude.Ok _ -> (match Gen_GuardsShifter.coq_InsertNogrow_guard zn (z_of_string "18446744073709551615") zi zk with
+                               | GenPrelude.Ok _ -> "ok" | o -> word o)
+         | o -> word o)
+      | "segrb" -> (match Gen_GuardsSeg.coq_SegRemoveBack_guard zn zk with GenPrelude.Ok _ -> "ok" | o -> word o)
+      | _ -> "?")
   | cont :: elem :: ic :: nm :: nr :: ops ->
     let is_arr = String.length cont >= 3 && String.sub cont 0 3 = "arr" in
     let is_vec = cont = "vec" in
